@@ -228,7 +228,8 @@ def enabled(tree, meta):
     if g >= 1:
         for ro in (["verify", {"root": ""}], ["verify", {"root": "", "i": ["*.tmp"]}], ["verify", {"root": "", "dh": True}],
                    ["diff", {"root": ""}], ["diff", {"root": "", "i": ["sub/"]}], ["verify", {"root": "", "ii": "patterns.lst"}],
-                   ["verify", {"root": "", "dh": True, "i": ["*.tmp"]}]):
+                   ["verify", {"root": "", "dh": True, "i": ["*.tmp"]}], ["verify", {"root": "", "dh": True, "ii": "patterns.lst"}],
+                   ["diff", {"root": "", "ii": "patterns.lst"}], ["verify", {"root": "", "dh": True, "i": ["sub"], "ii": "patterns.lst"}]):
             out.append((ro, None, False))
     if g >= 1 and meta["edits"] < meta["max_edits"] and g < mg:
         m3 = dict(meta, edits=meta["edits"] + 1)
